@@ -30,6 +30,8 @@ pub(crate) fn optimize(
     symbol_list: &SymbolList,
     enabled_modes: FlagSet<EncodationType>,
 ) -> Option<Vec<(usize, EncodationType)>> {
+    #[cfg(feature = "verif-hooks")]
+    crate::verif_hooks::reset();
     let start_plan = GenericPlan::for_mode(mode, data, written, symbol_list);
 
     let mut plans = Vec::with_capacity(36);
@@ -51,6 +53,8 @@ pub(crate) fn optimize(
         let rest_chars = data.len() - iteration;
         for mut plan in plans.drain(0..) {
             let plan_copy_before_step = plan.clone();
+            #[cfg(feature = "verif-hooks")]
+            crate::verif_hooks::step();
             let result = if let Some(result) = plan.step() {
                 result
             } else {
@@ -85,6 +89,8 @@ pub(crate) fn optimize(
         }
 
         remove_hopeless_cases(&mut new_plan);
+        #[cfg(feature = "verif-hooks")]
+        crate::verif_hooks::live(new_plan.len());
 
         if new_plan.is_empty() {
             return None;
@@ -100,6 +106,8 @@ pub(crate) fn optimize(
                     (p.cost().ceil(), max_enc, p.switches.len())
                 })
                 .unwrap();
+            #[cfg(feature = "verif-hooks")]
+            crate::verif_hooks::chosen(plan.cost().ceil().whole());
             plan.switches.push((0, plan.current()));
 
             // Remove a "switch" to ASCII if we are at the very beginning
